@@ -69,4 +69,42 @@ CHECKS["C13"] = dict(
     engine="z3",
 )
 
+_TV_NOTE = ("Bounded: program grammar and rows per table as listed in evidence.bounds. pandas/numpy, SQLite and PostgreSQL are replaced by models "
+            "(vf/sym/pdshim.py, vf/sym/sqlsym.py) that the REAL repository code calls / whose emitted SQL text they interpret; explored paths' witnesses "
+            "are replayed on real pandas + sqlite3 and must match the models' predictions; a violation is printed only after it reproduced on the real "
+            "engines. Values are mathematical ints/reals (no overflow, rounding, inf, NaN-vs-null, dates). Trusted: z3, forksym, the models, the reference "
+            "semantics where one is used.")
+
+
+def _tv(pid, text, technique, ref, note_extra=""):
+    CHECKS[pid] = dict(category="translation_validation", technique=technique, text=text, note=_TV_NOTE + (" " + note_extra if note_extra else ""),
+                       design_ref=ref, engine="forksym+z3 over sympd/symsql models")
+
+
+_tv("C01", "For every program of a bounded operator grammar and every row-count vector the real Pandas executor (current source, run over a symbolic "
+    "pandas/numpy model) and the SQL text emitted by the real SQLiteModel.to_sql (interpreted symbolically under SQLite semantics with the repository's "
+    "own user functions) are executed on the same symbolic tables; z3 decides per structural path that both return the same table for all cell values.",
+    "translation validation: symbolic execution of the real Pandas executor vs symbolic interpretation of the SQL text the real generator emits; z3 decides per-path table equality",
+    "DESIGN.md §4 C01", "Accepted differences (integer /, %, sum/count over all-null groups) are never compared; recorded known findings are tainted values.")
+_tv("C06", "Chained pipelines (where the real builder merges extends, collapses selections, removes intermediate order_rows) versus step-by-step application "
+    "on materialised intermediate results, both through the real Pandas executor over the pandas model, equality decided by z3 for all inputs; the "
+    "accept/reject half is decided by building both forms.",
+    "translation validation of builder simplifications: chained vs step-by-step pipelines executed symbolically, z3 per-path equality; accept/reject by construction",
+    "DESIGN.md §4 C06")
+_tv("C08", "Result column lists of the Pandas executor (over the model) and of the SQLite / PostgreSQL SQL text versus the pipeline's declared column_names on "
+    "every solver-feasible structural path (empty-input branches included); order checked after select_columns.",
+    "path-exhaustive symbolic execution (solver decides path feasibility) with a structural assertion on result columns", "DESIGN.md §4 C08")
+_tv("C09", "project / windowed extend on each backend against a reference written from the property statement (one row per distinct key combination, null its "
+    "own group, exactly one row ungrouped, every row kept by a windowed extend with its partition's aggregate); z3 decides equality per structural path.",
+    "translation validation against a reference semantics (z3 per-path equality), backends: real Pandas executor over the model, SQLite SQL text, PostgreSQL-model SQL text",
+    "DESIGN.md §4 C09")
+_tv("C16", "natural_join of every type and key specification on each backend against a reference join from the SQL standard over symbolic tables with duplicate "
+    "and null keys; z3 decides equality per structural path.",
+    "translation validation against a reference join (z3 per-path equality): real _natural_join_step over the model, SQLite right/full emulation text, generic SQL under the PostgreSQL model",
+    "DESIGN.md §4 C16")
+_tv("C27", "Ordered window functions for 0-2 partition columns and 1-2 order columns with every reversal pattern on each backend against an order-free reference "
+    "(position = number of partition mates at or before the row) under the total-order premise; z3 decides equality per structural path.",
+    "translation validation against an order-free window reference (z3), backends: real Pandas window realisation over the model, SQLite / PostgreSQL-model window SQL",
+    "DESIGN.md §4 C27")
+
 NOT_YET = {}
